@@ -1086,25 +1086,28 @@ where
 
     // Helper method to restore string from LOUDS storage
     fn restore_string_louds(label_data: &FastVec<u8>, state_id: StateId) -> Option<Vec<u8>> {
+        // A node id is the start of a record in the format insert_louds writes: [len_byte][key_bytes...]
+        // (keys may be empty and may contain any byte value, including 0)
         let start_pos = state_id as usize;
-        if start_pos >= label_data.len() {
-            return None;
-        }
-
-        // Read until we hit a null terminator
-        let mut key = Vec::new();
-        for i in start_pos..label_data.len() {
-            if label_data[i] == 0 {
-                break;
+        let mut pos = 0;
+        while pos < label_data.len() {
+            let stored_len = label_data[pos] as usize;
+            if pos + 1 + stored_len > label_data.len() {
+                break; // Corrupted data or end of data
             }
-            key.push(label_data[i]);
+            if pos == start_pos {
+                let mut key = Vec::with_capacity(stored_len);
+                for i in 0..stored_len {
+                    key.push(label_data[pos + 1 + i]);
+                }
+                return Some(key);
+            }
+            if pos > start_pos {
+                break; // Not the start of a record
+            }
+            pos += 1 + stored_len;
         }
-
-        if key.is_empty() {
-            None
-        } else {
-            Some(key)
-        }
+        None
     }
 }
 
